@@ -46,6 +46,28 @@ CHECKS.update({
             "Bounds: 2 jobs, 2 datasets, 2 payloads, <=4 timestamps; equal timestamps imply equal progress; sockets/poller/subprocess are harness fakes."),
 })
 
+P3 = "TLC as generator and oracle over the bounded domain stated in the evidence `rule`; harness transport code; "
+CHECKS.update({
+    "C10": ("exploration", "p3", "TLA+ post-condition (spec/Lowering.tla) evaluated by TLC on job structure, observed calls and DatasetId->value map of every enumerated graph lowered by the real graph2job and run through the real runner",
+            "Exhaustive over the bounded domain (all DAGs <= 3 nodes x argument layouts; generators with N in {2,3,10,11,12} outputs yielding N-1, N, N+1 values; 1440 cases quick / 23512 thorough): one task per node, one edge per input, observed arguments = declared statics + upstream values, i-th yielded value under the i-th declared output, count mismatch reported as TaskFailure.",
+            P3 + "inputs referenced once per args; dict-backed shm stand-in."),
+    "C11": ("exploration", "p3", "TLA+ denotational semantics and per-transformation post-conditions (spec/GraphSem.tla) evaluated by TLC on every (graph, transformation, parameters, result of the real transformer)",
+            "Exhaustive over the bounded domain (DAGs <= 4 nodes, multi-output nodes, colliding names, all split key maps, expand sub-graphs/maps, 4 fusion callbacks; 6127 cases quick / 41430 thorough): sink-wise equality of the denoted terms, dedup idempotent and duplicate-free, split partition + re-join, expand wiring.",
+            P3 + "payloads opaque; fusion callbacks are the harness' own."),
+    "C12": ("exploration", "p3", "TLA+ post-condition (spec/GraphSerde.tla) evaluated by TLC on every (graph, dict / JSON / Cascade-file round trip of the real serialisers)",
+            "Exhaustive over the bounded domain (DAGs <= 3 nodes x 5 output-list shapes x 14 payload literals + small fluent programs; 5561 cases quick): nodes, outputs, inputs, payloads identical after each round trip and Graph.__eq__ agrees.",
+            P3 + "JSON judged only for JSON-faithful payloads."),
+    "C14": ("exploration", "p3", "TLA+ predicates NameInjective / Deterministic / OperandsIntact (spec/FluentNames.tla) evaluated by TLC on names, payload identities and before/after snapshots logged while the real fluent API runs every enumerated program pair",
+            "Exhaustive over the bounded domain (820 program pairs over shared sources with lambdas / equal-__name__ defs / partials, 615 operand programs with differing coordinates; every case built twice).",
+            P3 + "'same callable' = identity of the function object; static arguments compared by repr."),
+    "C17": ("exploration", "p3", "TLA+ post-condition (spec/Wire.tla) evaluated by TLC on every (message, what the real encoders, framing and decoders return); message domain enumerated by TLC",
+            "Exhaustive over the bounded domain (38 message classes, sizes at 0..2^63-1 boundary values as decimal strings, keys empty..255 chars, out-of-domain values; 1188 cases): structural round-trip equality through each real code path, Syn acknowledged, frame counts, out-of-domain values refused or exact.",
+            P3 + "this is encode/decode fidelity: the specification contributes domain and oracle, there is no interleaving content; zmq/poller/subprocess are frame-recording stand-ins."),
+    "C19": ("exploration", "p3", "TLA+ post-condition (spec/Builder.tla) evaluated by TLC on every (signature, binding, edge set, what TaskBuilder/JobBuilder return)",
+            "Exhaustive over the bounded domain (signatures <= 2-3 parameters x kinds x annotations x defaults, positional prefixes x keyword subsets, 32 edge shapes incl. dangling endpoints; 10544 cases quick): build() never raises, returns a well-formed job or a non-empty problem list, bound values under exactly the given positions/names, earlier builders/jobs unchanged.",
+            P3 + "synthesised callables; int vs str incompatible."),
+})
+
 NOT_YET = {
 }
 
@@ -74,7 +96,7 @@ def main():
         "engines": [
             {"name": "cascade", "path": "harness/cascade_engine.py", "serves_properties": ["C01", "C02", "C03", "C04"],
              "kind_free_text": "TLC model checking of spec/Cascade.tla per instance + recorded executions of the real controller validated by TLC against spec/CascadeTrace.tla"},
-            {"name": "p3", "path": "harness/p3.py", "serves_properties": ["C16"],
+            {"name": "p3", "path": "harness/p3.py", "serves_properties": ["C10", "C11", "C12", "C14", "C16", "C17", "C19"],
              "kind_free_text": "enumerate / execute / validate: TLC generates the cases from the spec's domain, the harness runs the real function, TLC evaluates the spec's post-condition"},
             {"name": "acked", "path": "harness/props/c06.py", "serves_properties": ["C06"],
              "kind_free_text": "TLC on spec/Acked.tla + behaviour replay into the real comms layer and endpoint loops"},
